@@ -167,6 +167,12 @@ namespace
                       op();
                       c.count("operations"); if(pass) c.count("re_invocations");
                       bool ok = true;
+                      if(mode == 1 || mode == 7)
+                      {
+                        // one stable key for "the result depends on the old content of the output" (0 * NaN)
+                        for(int i = 0; i < m * n; ++i) if(!(mr.elements()[i] == mr.elements()[i]))
+                        { c.fail(key, "this <- x*y returns NaN when the (uninitialised) output matrix holds NaN before the call: the kernel computes 0*old + x*y"); return; }
+                      }
                       for(int i = 0; i < m && ok; ++i) for(int j = 0; j < n && ok; ++j)
                       {
                         LD s2 = 0, as = 0; for(int q = 0; q < k; ++q) if(X.has(i, q)) { const LD t = X.at(i, q) * Y.at(q, j); s2 += t; as += fabsl(t); }
@@ -268,7 +274,9 @@ namespace
     //  0: all-negative alphabet, alpha=1   1: re-invocation: the product is added twice onto the same X (alpha=1/2)
     //  2: derived operands (d shallow clone, a weak clone, b moved deep clone; X = weak clone of a bystander sharing its layout), alpha=-1
     if((!complete && !allow) || ef) return;
-    for(int extra = 0; extra < 3; ++extra)
+    //  3: all operands share ONE layout object with the output (square case with equal patterns: d, a, b and X are Layout/Weak clones of one matrix)
+    const bool can_share = (d.m == d.k && d.k == d.l && d.l == d.n && bx != 0 && bx == bd && bd == bb && (pop != P_DMM || ba == bx));
+    for(int extra = 0; extra < (can_share ? 4 : 3); ++extra)
     {
       const int alphabet = (extra == 0) ? 2 : 0;
       DenseRef X = dense_id(0, d.m, d.n, bx, alphabet), Dd = dense_id(1, d.m, d.k, bd, alphabet), B = dense_id(3, d.l, d.n, bb, alphabet);
@@ -282,10 +290,17 @@ namespace
       M md = (extra == 2) ? sd.clone(CloneMode::Shallow) : sd.clone(CloneMode::Shallow);
       M ma = (pop == P_DMM) ? ((extra == 2) ? sa.clone(CloneMode::Weak) : sa.clone(CloneMode::Shallow)) : M();
       M mb; if(extra == 2) { M t = sb.clone(CloneMode::Deep); M moved(std::move(t)); mb = std::move(moved); } else mb = sb.clone(CloneMode::Shallow);
-      M mx = (extra == 2) ? sx.clone(CloneMode::Weak) : sx.clone(CloneMode::Shallow);
+      M mx = (extra >= 2) ? sx.clone(CloneMode::Weak) : sx.clone(CloneMode::Shallow);
+      if(extra == 3)
+      {
+        // same index arrays for everything: Layout clones of sx, values written through the raw pointer (same pattern = same entry order)
+        md = sx.clone(CloneMode::Layout); mb = sx.clone(CloneMode::Layout); if(pop == P_DMM) ma = sx.clone(CloneMode::Layout);
+        for(Index q = 0; q < sx.used_elements(); ++q) { md.val()[q] = sd.val()[q]; mb.val()[q] = sb.val()[q]; if(pop == P_DMM) ma.val()[q] = sa.val()[q]; }
+      }
       V va; if(pop == P_DVM) { va = V(Index(d.k)); std::vector<LD> f; for(int q = 0; q < d.k; ++q) f.push_back(A.at(q, q)); vfill(va, f); }
       const uint64_t hd = hash_of(sd), hb = hash_of(sb), ha = (pop == P_DMM) ? hash_of(sa) : 0, hx0 = hash_of(sx), sxs = hash_structure(mx);
-      const LD alpha = (extra == 0) ? LD(1) : (extra == 1) ? LD(0.5L) : LD(-1);
+      const uint64_t hmd = hash_of(md), hmb = hash_of(mb);
+      const LD alpha = (extra == 0 || extra == 3) ? LD(1) : (extra == 1) ? LD(0.5L) : LD(-1);
       const int reps = (extra == 1) ? 2 : 1;
       auto op = [&]{
         for(int q = 0; q < reps; ++q)
@@ -296,12 +311,12 @@ namespace
         } };
       const int st = trapped(op);
       c.count("operations", uint64_t(reps));
-      static const char* en[3] = {" all-negative", " re-invocation", " derived-operands"};
-      c.count(extra == 0 ? "all_negative_product_executions" : extra == 1 ? "re_invocations" : "derived_object_cases");
+      static const char* en[4] = {" all-negative", " re-invocation", " derived-operands", " shared-layout"};
+      c.count(extra == 0 ? "all_negative_product_executions" : extra == 1 ? "re_invocations" : extra == 2 ? "derived_object_cases" : "shared_layout_product_executions");
       if(st != 0) { c.fail(key + en[extra] + " crash", "operation died with signal " + std::to_string(st)); return; }
       if(!c.check(hash_structure(mx) == sxs, key + en[extra] + " structure-modified", "layout of the output matrix changed")) return;
-      if(!c.check(hash_of(sd) == hd && hash_of(sb) == hb && (pop != P_DMM || hash_of(sa) == ha), key + en[extra] + " operand-modified", "an input operand (source of a derived operand) was modified")) return;
-      if(extra == 2 && !c.check(hash_of(sx) == hx0, key + en[extra] + " bystander-modified", "the matrix whose layout the output matrix shares (weak clone) was modified")) return;
+      if(!c.check(hash_of(sd) == hd && hash_of(sb) == hb && (pop != P_DMM || hash_of(sa) == ha) && hash_of(md) == hmd && hash_of(mb) == hmb, key + en[extra] + " operand-modified", "an input operand (source of a derived operand) was modified")) return;
+      if(extra >= 2 && !c.check(hash_of(sx) == hx0, key + en[extra] + " bystander-modified", "the matrix whose layout the output matrix shares (weak clone) was modified")) return;
       const bool exact = (std::is_same<DT, double>::value || std::max(std::max(d.m, d.k), std::max(d.l, d.n)) <= 2);
       size_t kk = 0;
       for(int i = 0; i < d.m; ++i) for(int j = 0; j < d.n; ++j) if(X.has(i, j))
@@ -389,14 +404,14 @@ int main(int argc, char** argv)
   spec.rule = "element-wise ops: case = (type pair, shape, one of ALL 2^(mn) patterns, representation of the empty pattern, operation + variant (alpha, x aliasing this, overload, shrink threshold, stored zero), alphabet {exact, rounding, all-negative, extreme magnitudes} or (exact alphabet) operands that are deep/shallow/weak clones, moved or index-type-converted objects, target = weak clone of a bystander); every operation is invoked twice on the same objects; "
     "products: case = (operation, dimension tuple, one of ALL pattern tuples (X,D[,A],B), empty-pattern representation, allow_incomplete), each executed for alpha in {1,-1,1/2,0.3,0} x {exact, rounding alphabet} + all-negative alphabet + product added twice (re-invocation) + derived operands (clones / moved, output = weak clone of a bystander); "
     "non-trivial = pattern(s) with entries; hash over all of these";
-  spec.bounds_quick = "element-wise: shapes {0..3}x{0..3}, all patterns, (double,u64),(float,u32),(double,u32); products: add_mat_mat_product and the diagonal-vector double product for all dims in {1,2}^3, "
+  spec.bounds_quick = "DenseMatrix::multiply: shapes m,k,n in {1..3}^3 (thorough {1..4}^3), multiply(x,y), multiply(x,y,z,a,b) with z separate / z==this / z==x / z==y, CSR*dense with all patterns of X, alpha,beta in {0,1,-1,0.5,2,0.3}^2, 3 alphabets, every call repeated on the same objects; element-wise: shapes {0..3}x{0..3}, all patterns, (double,u64),(float,u32),(double,u32); products: add_mat_mat_product and the diagonal-vector double product for all dims in {1,2}^3, "
     "add_double_mat_product for all dims in {1,2}^4 (65536 pattern tuples for 2x2x2x2, double/u64; float/u32 up to 2^12 tuples per dims); (sanitizer build: up to 2^12 resp. 2^10 tuples per dims); incomplete & !allow_incomplete executions must die with SIGABRT (trapped in-process by a sigsetjmp handler; a deterministic 1/97 sample is repeated in a forked child and must agree)";
   spec.bounds_thorough = "quick + element-wise shapes 2x4,4x2,3x4,4x3,4x4(double) + products with one dimension 3 (up to 2^18 pattern tuples per dimension tuple) for (double,u64), all {1,2}^4 for (float,u32)";
   spec.assumptions = {
     "oracle: dense long double formulas written in the harness, restricted to the output pattern where entries are dropped (allow_incomplete)",
     "exact alphabet (position coded dyadic values) compared with ==; rounding alphabet, alpha=0.3, sqrt based norms: relative bound 8(terms+2) eps",
     "entry-free operands SparseMatrixCSR(m,n) (no arrays) are generated; element-wise cases run in a forked child, product cases under the in-process trap; a death by signal is reported under the key 'entry-free operand <op> [operand]'",
-    "excluded (API preconditions): operands with different layouts in axpy/scale/scale_rows/cols; extract_diag of non-square matrices; min/max of a matrix without entries; output matrix aliasing a product operand"};
+    "DenseMatrix::multiply: the output is pre-filled with NaN where it is no operand (it must not be read); excluded: x or y aliasing the output (not an in-place capable form)", "excluded (API preconditions): operands with different layouts in axpy/scale/scale_rows/cols; extract_diag of non-square matrices; min/max of a matrix without entries; output matrix aliasing a product operand"};
   return verif::run(spec, argc, argv, [&](verif::Ctx& c) {
     enum_unary<double, std::uint64_t>(c);
     enum_unary<float, std::uint32_t>(c);
